@@ -453,6 +453,50 @@ func (g *exprGen) expr(class byte, depth int) *dsl.Expr {
 	return g.paren(e)
 }
 
+// chain generates one flat operator chain of 10-200 operands without brackets: terms joined by
+// + and -, each term 1-3 atoms joined by * and / (numeric classes), a concatenation of string
+// atoms, or boolean atoms joined by one logical operator. The tree leans left as the grammar
+// parses such a chain, so the printer emits no brackets.
+func (g *exprGen) chain(class byte) *dsl.Expr {
+	t := g.t
+	n := []int{0, 0, 63, 64, 65, 66, 67, 128, 129, 130}[uni(t, g.lbl("chain_n_kind"), 0, 9)]
+	if n == 0 {
+		n = uni(t, g.lbl("chain_n"), 10, 200)
+	}
+	switch class {
+	case 'i', 'u', 'f':
+		term := func() *dsl.Expr {
+			e := g.atom(class)
+			for k := uni(t, g.lbl("chain_factors"), 0, 2); k > 0; k-- {
+				if pct(t, g.lbl("chain_div"), 30) {
+					e = dsl.Bin("/", e, g.divisor(class, 0))
+				} else {
+					e = dsl.Bin("*", e, g.atom(class))
+				}
+			}
+			return e
+		}
+		e := term()
+		for i := 1; i < n; i++ {
+			e = dsl.Bin([]string{"+", "-"}[uni(t, g.lbl("chain_op"), 0, 1)], e, term())
+		}
+		return e
+	case 's':
+		e := g.atom('s')
+		for i := 1; i < n; i++ {
+			e = dsl.Bin("+", e, g.atom('s'))
+		}
+		return e
+	default:
+		op := []string{"&&", "||"}[uni(t, g.lbl("chain_logic"), 0, 1)]
+		e := g.atom('b')
+		for i := 1; i < n; i++ {
+			e = dsl.Bin(op, e, g.atom('b'))
+		}
+		return e
+	}
+}
+
 // plant returns a faulty construct standing in for an expression of the wanted class.
 func (g *exprGen) plant(class byte, depth int) *dsl.Expr {
 	t := g.t
